@@ -219,8 +219,11 @@ func refMatch(fs *FlowSpec, probes []*sim.ProbeRec, pkt []byte) Match {
 		_ = ql
 		m := Match{Kind: Genuine, Probe: idx(hit), TTL: hit.TTL(), From: unmap(ip.Src), Form: "icmp-error"}
 		switch fs.Proto {
-		case "udp", "sack":
+		case "udp":
 			m.Dest = ip.Src == fs.Target.Addr()
+		case "sack":
+			// only a time-exceeded sent by the target itself proves arrival for SACK probing
+			m.Dest = ip.Src == fs.Target.Addr() && isTE
 		}
 		quoteClean := q.HdrLen >= 20 && len(q.Options)%4 == 0
 		if !formOK || !outerClean || !l4.CsumOK || !quoteClean || !quoteVerOK {
